@@ -73,12 +73,44 @@ package main
 // emitted ONCE as a definition `<f>.kN` of the variables it mentions and both branches call it (otherwise it is
 // copied).  `clear(s[len(s):cap(s)])` zeroes the array beyond the visible elements: no effect on a list.
 //
+// # Recursion over the slab tree (the DESCENT; WP12)
+//
+// `ArrayMetaDataSlab.Get / Set / Insert / Remove / PopIterate` read a child slab from the storage and call the same
+// method on it through the `ArraySlab` interface: recursion through dynamic dispatch over a heap.  A target marked
+// `Rec` is translated as STRUCTURAL recursion on an extra argument `depth_ : Nat` placed after `env`:
+//
+//	def T_M (env) (depth_ : Nat) (a : T) .. := match depth_ with | 0 => none | depth_ + 1 => let rec_ := T_M env depth_; <body>
+//
+// (`none` at depth 0: the tree is deeper than the argument - the function leaves the modelled fragment; the theorems
+// quantify over every depth argument that covers the tree.)  The dispatcher `<Sum>_M` of such a method takes the
+// recursive implementation as a parameter `rec_` (the caller passes `rec_`, or `T_M env depth_` from a target marked
+// `Fuel`, which only has the depth argument and hands it on); loops and join points of a `Rec` target receive `rec_` /
+// `depth_` as parameters like any other variable they mention.  Implementations of one method may differ in which
+// parameters they ignore (`_ SlabStorage`): the dispatcher keeps a parameter that any of them keeps.
+//
+// `EnvMethods` of the unit: methods of an object type that this engine does NOT translate and calls as parameters
+// `env.<Struct>_<method> receiver args` - `childSlabIndexInfo` (translated by the stateless engine; the proofs
+// instantiate the parameter with that translation) and the nesting machinery of `Array` (`setCallbackWithChild`,
+// `notifyParentIfNeeded`, `incrementIndexFrom`, `decrementIndexFrom`; the receiver is threaded through because a parent
+// callback can change the array).
+//
+// Two relaxations that the descent needs: (1) an alias whose variable is NEVER MENTIONED AGAIN (textually, after the
+// statement being translated; inside a loop: never relaxed) ends when its source is written, instead of rejecting the
+// function (`root := a.root.(*ArrayMetaDataSlab); .. a.promoteChildAsNewRoot(root.childrenHeaders[0].slabID)`); the
+// variable is marked consumed.  (2) the bound `len(s)` of a counted loop may be a slice whose ELEMENTS the body
+// assigns (`s[i]++` keeps the length); any other assignment to `s` is still rejected.
+//
+// TRUSTED for the descent: a slab handed to `Store` is stored BY VALUE and `getArraySlab` returns what was stored last;
+// a slab that is changed after it was stored and not stored again is not seen by later reads (Go: the storage keeps
+// the pointer, so it would be seen).  The heap theorems therefore say what the PERSISTED slabs are.
+//
 // Anything outside the subset makes the function "untranslatable": `def f : Untranslatable := ⟨reason⟩`, listed in
 // `untranslatedFunctions`; its theorems stop compiling.
 
 import (
 	"fmt"
 	"go/ast"
+	"go/token"
 	"sort"
 	"strings"
 )
@@ -122,20 +154,29 @@ type qTarget struct {
 	Func string // "Recv.Method" or "function"
 	Lean string
 	Doc  string
+	Rec  bool // recursive through dynamic dispatch on slabs read from the storage: structural recursion on a depth argument
+	Fuel bool // takes the depth argument and hands it to the recursive functions it calls
+}
+
+// qEnvMethod: a method of an object type that is NOT translated by this engine but a parameter `env.<Struct>_<method>`
+// (the nesting machinery of Array; childSlabIndexInfo, which the stateless engine translates)
+type qEnvMethod struct {
+	RecvMut bool // the receiver is threaded through (the method can mutate it)
 }
 
 type qUnit struct {
-	TypeVars  []string
-	Types     map[string]qTypeInfo
-	Structs   []string // Go struct types to generate, in dependency order
-	Sums      []qSum
-	SumAfter  string             // emit the inductive(s) after this struct
-	Fields    map[string]qView   // "SlabID.address" -> view
-	Methods   map[string]qView   // "SlabID.AddressAsUint64" -> view
-	PkgVars   map[string]qPkgVar // package variables with a checked initialiser
-	EnvVars   map[string]string  // package variables that are fields of env -> Go type
-	ExprViews []qExprView
-	Targets   []qTarget
+	TypeVars   []string
+	Types      map[string]qTypeInfo
+	Structs    []string // Go struct types to generate, in dependency order
+	Sums       []qSum
+	SumAfter   string                // emit the inductive(s) after this struct
+	Fields     map[string]qView      // "SlabID.address" -> view
+	Methods    map[string]qView      // "SlabID.AddressAsUint64" -> view
+	PkgVars    map[string]qPkgVar    // package variables with a checked initialiser
+	EnvVars    map[string]string     // package variables that are fields of env -> Go type
+	EnvMethods map[string]qEnvMethod // "Array.notifyParentIfNeeded" -> a parameter, not a target
+	ExprViews  []qExprView
+	Targets    []qTarget
 }
 
 // ---------------------------------------------------------------------------------------------
@@ -384,6 +425,8 @@ type qshape struct {
 	aborts  bool
 	generic bool
 	tparams map[string]string // generic: type parameter -> "E" (element) / "[]E" (slice of it)
+	fuel    bool              // takes the depth argument `depth_` after env
+	recKey  string            // dispatcher: key of the implementation it reaches through its parameter `rec_` ("" = none)
 }
 
 type qEnvFn struct{ name, typ, doc string }
@@ -414,6 +457,11 @@ type qtrans struct {
 	loopCall, loopTuple, loopTupleT string
 	loopCarried                     []qvar
 	loopHasRet                      bool
+	recType                         string    // Rec target: Lean type of `rec_` (= this function at the smaller depth)
+	curEnd                          token.Pos // end of the simple statement being translated (liveness of aliases)
+	inLoop                          int
+	viaSet                          bool            // the rebinding in progress is an element assignment `s[i] = v`
+	nonSet                          map[string]bool // Lean paths rebound by something other than an element assignment
 }
 
 // per unit
@@ -430,7 +478,30 @@ func (x *qtrans) tmp(prefix string) string {
 	return fmt.Sprintf("%s%d_", prefix, x.ntmp)
 }
 
-func (x *qtrans) ti(t string) qTypeInfo { return x.u.typeInfo(t, x.tparams) }
+func (x *qtrans) ti(t string) qTypeInfo {
+	switch t {
+	case "#depth":
+		return qTypeInfo{Lean: "Nat", Kind: "nat"}
+	case "#rec":
+		return qTypeInfo{Lean: x.recType, Kind: "fn"}
+	}
+	return x.u.typeInfo(t, x.tparams)
+}
+
+// aliveAfter: is the Go variable mentioned after the statement being translated? (inside a loop: conservatively yes)
+func (x *qtrans) aliveAfter(goName string) bool {
+	if x.inLoop > 0 || x.fd == nil || x.curEnd == token.NoPos {
+		return true
+	}
+	alive := false
+	ast.Inspect(x.fd.Body, func(n ast.Node) bool {
+		if id, ok := n.(*ast.Ident); ok && id.Name == goName && id.Pos() >= x.curEnd {
+			alive = true
+		}
+		return !alive
+	})
+	return alive
+}
 
 func (x *qtrans) leanTypeOf(t string) string { return x.ti(t).Lean }
 
@@ -590,6 +661,11 @@ func (x *qtrans) checkWritable(path string, en qenv, exact bool) qenv {
 			en = en.update(v.lean, func(w *qvar) { w.link = nil })
 			continue
 		}
+		if !x.aliveAfter(v.goName) {
+			// the alias is never mentioned again: the link ends here
+			en = en.update(v.lean, func(w *qvar) { w.link = nil; w.consumed = "the object it names was changed through " + path })
+			continue
+		}
 		fail("write to %s while %s is an alias of %s (the copies would diverge)", path, v.goName, src)
 	}
 	return en
@@ -605,6 +681,9 @@ func (x *qtrans) rebind(root *qvar, fields []string, newVal string, en qenv, via
 		fail("%s is written after %s", root.goName, root.consumed)
 	}
 	x.rebound[path] = true
+	if !x.viaSet {
+		x.nonSet[path] = true
+	}
 	if root.param {
 		x.mutParam[root.lean] = true
 	}
@@ -625,7 +704,10 @@ func (x *qtrans) store(lv qlval, val string, en qenv, plain bool) qenv {
 	if lv.index != "" {
 		t := x.tmp("l")
 		x.guard("goSet "+paren(lv.leanNoIndex())+" "+paren(lv.index)+" "+paren(val), t)
-		return x.rebind(lv.root, lv.fields, t, en, false)
+		x.viaSet = true // an element assignment keeps the length of the slice
+		en = x.rebind(lv.root, lv.fields, t, en, false)
+		x.viaSet = false
+		return en
 	}
 	if plain {
 		en = x.checkWritable(lv.pathKey(), en, true)
